@@ -535,6 +535,22 @@ func c03TypedStops(c *Ctx) {
 			}
 		}
 	}
+	// the last row may be written with fewer cells than the header: stop_id only. An archive like that is
+	// normally rejected; if it is accepted, the cells that are not there are blank - not the previous row's
+	if c.Free("last_row_cut_after_stop_id", 2) == 1 {
+		for i := range t.Cols {
+			if t.Cols[i] != "stop_id" {
+				t.Rows[2][i] = ""
+			}
+		}
+		// stop_id is the first column of stops.txt in the generator's column order
+		if t.col("stop_id") != 0 {
+			harnessBug("stop_id is not the first column")
+		}
+		t.Short = map[int]int{2: 1}
+		desc = append(desc, "last row: stop_id cell only")
+		c.Witness("row_shorter_than_the_header")
+	}
 	c.Witness("typed_stops")
 	c03WithOption = true
 	c03Run(c, m, true, "stops "+strings.Join(desc, " "))
